@@ -19,6 +19,7 @@ are walked in drawn orders on that one object and each is compared with its own 
 C14_sub_extent_exact / C14_spanning_extent_concat)."""
 import io, struct
 from tools.lib.framework import impl_call
+from tools.lib.streams import Streams, draw_kind, KINDS
 from tools.lib.sx import canon as sx_canon
 
 CLAIMED = True
@@ -56,7 +57,10 @@ RULE = ('cases: abstract note extents drawn from the seeded PRNG (0..8 notes; na
         'non-zero garbage; extent placed mid-file or at EOF at a random (unaligned) offset; every header field that does '
         'not locate the extent is drawn (typical / 0 / 1 / maximum / random of the field width): sh_flags (without '
         'SHF_COMPRESSED), sh_addr, sh_link, sh_info, sh_addralign, sh_entsize, p_flags, p_vaddr, p_paddr, p_memsz, '
-        'p_align; one file with 2-3 adjacent note sections (also empty ones) under one spanning PT_NOTE, the views walked on the '
+        'p_align; the image is presented to the library as a drawn stream kind (tools/lib/streams.py: BytesIO, buffered file '
+        'fresh / warm / at EOF / 16-byte buffer, mmap, gzip stream, stream with an unrelated fileno; every kind on every entry '
+        'point incl. a 150-400 entry NT_FILE whose name table crosses the 8192-byte read-ahead buffer); owner FDO / type '
+        '0xcafe1a7e notes with JSON, Latin-1, invalid UTF-8 and empty payloads; one file with 2-3 adjacent note sections (also empty ones) under one spanning PT_NOTE, the views walked on the '
         'same ELFFile in drawn orders with repetitions (section first / segment first / shuffled) and in lock step, each '
         'compared with its own extent; note tables and a stab table longer than 64 KiB (one big descriptor crossing the '
         'boundary, 40 notes of ~1.7 KB, ~2800 small notes, 5500-6000 stab records; on the two long walks the model is run in the '
@@ -73,6 +77,7 @@ EM = {'EM_386': 3, 'EM_X86_64': 62, 'EM_ARM': 40, 'EM_SPARC': 2, 'EM_68K': 4, 'E
       'EM_AARCH64': 183, 'EM_MIPS': 8, 'EM_PPC': 20, 'EM_RISCV': 243, 'raw': 0xfeed}
 WORD_PROPS = [0xc0000002, 0xc0008002, 0xc0010001, 0xc0010002, 0xc0000000]
 NT_FILE = 0x46494c45
+NT_FDO = 0xcafe1a7e      # FDO_PACKAGING_METADATA: a vendor note like any other for this property (raw descriptor)
 FINAL_NOTE_KEY = 'final-header-only-note-dropped'
 ODD_WORD_PROP_KEY = 'gnu-property-word-type-odd-size'
 
@@ -88,6 +93,11 @@ def _hdrs(layout):
     if len(layout) >= 4:
         return layout[0], layout[1], list(layout[2]), list(layout[3])
     return layout[0], layout[1], DEFAULT_SHF, DEFAULT_PHF
+
+
+def _kind(layout):
+    """the stream kind the image is presented as (tools/lib/streams.py KINDS)"""
+    return layout[5] if len(layout) >= 6 else 'bytesio'
 
 
 def _sched(layout):
@@ -222,13 +232,14 @@ def _gen_prps(rng, is64, half):
     return vals
 
 
-def _gen_file(rng, is64):
+def _gen_file(rng, is64, n=None):
     native = 8 if is64 else 4
-    n = rng.choice([0, 1, 1, 2, 3, 5])
+    if n is None:
+        n = rng.choice([0, 1, 1, 2, 3, 5])
     def u():
         return rng.choice([0, 1, 2 ** (8 * native) - 1, rng.getrandbits(8 * native)])
     entries = [[u(), u(), u()] for _ in range(n)]
-    names = [_garbage(rng, rng.choice([0, 1, 5, 17, 30])) for _ in range(n)]
+    names = [_garbage(rng, rng.choice([0, 1, 5, 17, 30] if n < 50 else [9, 17, 30, 41, 70])) for _ in range(n)]
     return ['file', rng.choice([1, 4096, u()]), entries, names]
 
 
@@ -250,12 +261,16 @@ def _gen_note(rng, cfgd, name=None, dlen=None, force_type=None):
             name = b'GNU'
         elif r < 0.55:
             name = b'CORE'
+        elif r < 0.6:
+            name = b'FDO'                # .note.package (systemd package metadata): no descriptor kind of its own
         else:
             name = _garbage(rng, rng.choice([1, 2, 3, 4, 5, 6, 7, 8, 9]))
     if force_type is not None:
         ty = force_type
     else:
-        ty = rng.choice([0, 1, 2, 3, 4, 5, 6, 7, 3, 5, 1, NT_FILE, 0x53494749, rng.getrandbits(32), 2 ** 32 - 1])
+        ty = rng.choice([0, 1, 2, 3, 4, 5, 6, 7, 3, 5, 1, NT_FILE, 0x53494749, rng.getrandbits(32), 2 ** 32 - 1, NT_FDO])
+        if name == b'FDO' and rng.random() < 0.7:
+            ty = NT_FDO
     namesz = 0 if name == 'none' else len(name) + 1
     kind = 'raw'
     if core:
@@ -377,7 +392,7 @@ def gen(ctx):
 
     def layout_pick(is64, entsizes=NOTE_ENTSIZES):
         return [rng.choice([0, 0, 1, 2, 3, 4, 5, 7]), rng.random() < 0.3, shf_pick(is64, entsizes), phf_pick(is64),
-                sched_pick(entsizes is STAB_ENTSIZES)]
+                sched_pick(entsizes is STAB_ENTSIZES), draw_kind(rng)]
 
     def cfgd(c):
         return (c[0], c[1], c[2], c[3])
@@ -408,6 +423,36 @@ def gen(ctx):
                    ['data', '.shstrtab'], ['header', 1], ['other'], ['stab'], ['note'], ['none']):
             cases.append(('notes', [c, three, [1, False, DEFAULT_SHF, DEFAULT_PHF, [op]]]))
             cases.append(('stabs', [c, four, [1, False, DEFAULT_SHF, DEFAULT_PHF, [op]]]))
+    # --- every stream kind (tools/lib/streams.py) on every entry point: a GNU/unknown extent, a core extent with
+    #     NT_PRPSINFO + NT_FILE (construct reads the file names straight from the stream), a stab table; plus a
+    #     process-sized NT_FILE (150..400 mappings: the name table crosses the 8192-byte read-ahead buffer of a file)
+    for j, sk in enumerate(KINDS):
+        le, is64 = _cfgs()[j % 4]
+        c = [le, is64, 'ET_DYN', rng.choice(list(EM))]
+        cc = [le, is64, 'ET_CORE', rng.choice(list(EM))]
+        lay = lambda sched: [rng.choice([0, 1, 5]), rng.random() < 0.5, DEFAULT_SHF, DEFAULT_PHF, sched, sk]
+        cases.append(('notes', [c, [_gen_note(rng, cfgd(c), name=b'GNU', force_type=t) for t in (5, 3, 1)] + [_gen_note(rng, cfgd(c))],
+                                lay([['data', '.stab'], ['other']])]))
+        cases.append(('notes', [cc, [_gen_note(rng, cfgd(cc), name=b'CORE', force_type=3), _gen_note(rng, cfgd(cc), name=b'CORE', force_type=NT_FILE),
+                                     _gen_note(rng, cfgd(cc))], lay([['seek', 3], ['stab']])]))
+        big = _gen_file(rng, is64, rng.randint(150, 400))
+        dsz = _desc_len(big, is64, False)
+        cases.append(('notes', [cc, [_gen_note(rng, cfgd(cc), name=b'CORE', force_type=1, dlen=rng.choice([20, 148, 336])),
+                                     [b'CORE', b'\x21\x22\x23', NT_FILE, big, _garbage(rng, _pad(4, dsz))],
+                                     _gen_note(rng, cfgd(cc))], lay([['none'], ['data', '.shstrtab']])]))
+        cases.append(('stabs', [c, [[i, 0x24 + i, i, 0x100 + i, 0x8048000 + i] for i in range(7)], lay([['seek', 0], ['data', '.note'], ['other']])]))
+        secs = [[_gen_note(rng, cfgd(c)) for _ in range(2)] for _ in range(2)]
+        cases.append(('multi', [c, secs, lay([]), [0, 'seg', 1, 'seg']]))
+    # --- vendor notes that look like text: owner FDO / type 0xcafe1a7e (.note.package) and that type under other owners;
+    #     the descriptor is arbitrary bytes (JSON with NUL padding, Latin-1, invalid UTF-8, empty) and is yielded as such
+    for j, payload in enumerate([b'{"type":"rpm","name":"pkg","version":"1.2-3"}\0\0\0', b'{"maintainer":"Ren\xe9"}\0', b'\xff\xfe\x00\x80',
+                                 b'', b'\0\0\0\0', b'{"os":"fedora"}', '{"n":"\u00e9\u4e2d"}'.encode('utf-8') + b'\0']):
+        for owner in (b'FDO', b'GNU', b'fdo', 'none'):
+            le, is64 = _cfgs()[(j + len(owner)) % 4]
+            c = [le, is64, rng.choice(['ET_DYN', 'ET_EXEC', 'ET_CORE', 'ET_REL']), rng.choice(list(EM))]
+            nsz = 0 if owner == 'none' else len(owner) + 1
+            n = [owner, _garbage(rng, _pad(4, nsz)), NT_FDO, ['raw', payload], _garbage(rng, _pad(4, len(payload)))]
+            cases.append(('notes', [c, [_gen_note(rng, cfgd(c)), n, _gen_note(rng, cfgd(c))], layout_pick(is64)]))
     # --- residue sweep: every (namesz, descsz) in 0..8 x 0..8, as the only note, the first of two, the last of two
     for ns in range(0, 9):
         for ds in range(0, 9):
@@ -462,7 +507,8 @@ def gen(ctx):
         order += [rng.choice(views) for _ in range(rng.choice([1, 2, 3]))]
         if j % 4 >= 2:
             order = order + [v for v in views if v not in order]
-        lay = layout_pick(is64)[:4]
+        lay = layout_pick(is64)
+        lay[4] = []
         cases.append(('multi', [c, secs, lay, order]))
     # --- tables longer than 64 KiB (block-wise readers): one big-descriptor table and one many-notes table
     for j in range(ctx.scale(1, 2)):
@@ -471,13 +517,13 @@ def gen(ctx):
             nm = _garbage(rng, rng.choice([1, 3, 4, 6]))
             return [nm, _garbage(rng, _pad(4, len(nm) + 1)), 0x4000 + dlen % 7, ['raw', _bytes(rng, dlen)], _garbage(rng, _pad(4, dlen))]
         big = [rawnote(rng.choice([40001, 39998])), rawnote(rng.choice([25531, 25600])), rawnote(5), _gen_note(rng, cfgd(c)), rawnote(0)]
-        cases.append(('notes', [c, big, [rng.choice([0, 3]), j % 2 == 1, DEFAULT_SHF, DEFAULT_PHF, [['seek', 0x10000], ['data', '.stab']]]]))
+        cases.append(('notes', [c, big, [rng.choice([0, 3]), j % 2 == 1, DEFAULT_SHF, DEFAULT_PHF, [['seek', 0x10000], ['data', '.stab']], 'file_warm']]))
         c = cfg_pick()
         mid = [rawnote(rng.choice([1699, 1700, 1701, 1702, 2047])) for _ in range(40)]       # the 64 KiB boundary falls inside a descriptor
-        cases.append(('notes', [c, mid, [rng.choice([0, 1]), False, DEFAULT_SHF, DEFAULT_PHF, [['seek', 0x10000 - 2], ['other']]]]))
+        cases.append(('notes', [c, mid, [rng.choice([0, 1]), False, DEFAULT_SHF, DEFAULT_PHF, [['seek', 0x10000 - 2], ['other']], rng.choice(['file', 'mmap', 'decoy_fd'])]]))
         c = cfg_pick()
         many = [rawnote(rng.choice([0, 1, 2, 3, 4, 5, 8, 13])) for _ in range(rng.randint(2700, 2900))]
-        cases.append(('notes', [c, many, [rng.choice([0, 1]), False, DEFAULT_SHF, DEFAULT_PHF, [['seek', 0x10000 - 2], ['other']]]]))
+        cases.append(('notes', [c, many, [rng.choice([0, 1]), False, DEFAULT_SHF, DEFAULT_PHF, [['seek', 0x10000 - 2], ['other']], 'file']]))
     # --- large names / descriptors
     for _ in range(6 * T):
         c = cfg_pick()
@@ -503,7 +549,7 @@ def gen(ctx):
                 c = [le, is64, rng.choice(['ET_REL', 'ET_EXEC', 'ET_DYN']), rng.choice(list(EM))]
                 shf = shf_pick(is64, STAB_ENTSIZES)
                 shf[5] = ent
-                cases.append(('stabs', [c, [stab_pick() for _ in range(k)], [rng.choice([0, 1, 3]), rng.random() < 0.3, shf, DEFAULT_PHF, sched_pick(True)]]))
+                cases.append(('stabs', [c, [stab_pick() for _ in range(k)], [rng.choice([0, 1, 3]), rng.random() < 0.3, shf, DEFAULT_PHF, sched_pick(True), draw_kind(rng)]]))
         for k in [0, 1, 2, 3, 20] + [rng.randint(0, 12) for _ in range(6 * T)]:
             c = [le, is64, rng.choice(['ET_REL', 'ET_EXEC', 'ET_DYN', 'ET_CORE', 'raw']), rng.choice(list(EM))]
             cases.append(('stabs', [c, [stab_pick() for _ in range(k)], layout_pick(is64, STAB_ENTSIZES)]))
@@ -512,7 +558,7 @@ def gen(ctx):
         le, is64 = _cfgs()[(j + rng.randint(0, 3)) % 4]
         c = [le, is64, 'ET_REL', rng.choice(list(EM))]
         cases.append(('stabs', [c, [stab_pick() for _ in range(rng.randint(5500, 6000))],
-                                [rng.choice([0, 1, 3]), j % 2 == 1, shf_pick(is64, STAB_ENTSIZES), DEFAULT_PHF, [['seek', 0x10000], ['other']]]]))
+                                [rng.choice([0, 1, 3]), j % 2 == 1, shf_pick(is64, STAB_ENTSIZES), DEFAULT_PHF, [['seek', 0x10000], ['other']], rng.choice(['file', 'file_warm', 'decoy_fd'])]]))
     # --- roundup
     for b in (0, 1, 2, 3, 4, 12):
         for n in [0, 1, 2, 3, 4, 5, 7, 8, 9, 15, 16, 17, 4095, 4096, 4097, 2 ** 32 - 1, 2 ** 32, 2 ** 64 - 3] + \
@@ -576,9 +622,13 @@ def _stab(s):
     return [[[k, s[k]] for k in ('n_strx', 'n_type', 'n_other', 'n_desc', 'n_value')], s['n_offset']]
 
 
-def _open(img):
+_S = None       # the Streams() of the running evaluate()
+
+
+def _open(img, kind='bytesio'):
+    """ELFFile over the image presented as the drawn stream kind (tools/lib/streams.py: same bytes)"""
     from elftools.elf.elffile import ELFFile
-    return ELFFile(io.BytesIO(img))
+    return ELFFile(_S.open(img, kind) if _S is not None else io.BytesIO(img))
 
 
 def _cfg_of_file(f):
@@ -610,9 +660,12 @@ def _consumer_op(f, op, walkers):
     k = op[0]
     if k == 'seek':
         p = op[1]
+        f.stream.seek(0, 2)
+        size = f.stream.tell()
         if isinstance(p, str):          # 'end', 'end+5'
-            f.stream.seek(0, 2)
-            p = f.stream.tell() + (int(p[4:]) if len(p) > 3 else 0)
+            p = size + (int(p[4:]) if len(p) > 3 else 0)
+        if type(f.stream).__name__ == 'mmap':
+            p = min(p, size)            # an mmap refuses to seek past its end: not something a consumer can do
         f.stream.seek(p)
     elif k == 'data':
         f.get_section_by_name(op[1]).data()
@@ -643,12 +696,12 @@ def _stepwise(f, it, conv, sched, walkers):
         i += 1
 
 
-def _impl_notes(img, sched=()):
+def _impl_notes(img, sched=(), kind='bytesio'):
     """the two views consumed list()-style, then each consumed step by step under the schedule on the same
     ELFFile; -> (observations, cfg, cursor schedules of the two stepwise walks)"""
     from elftools.elf.sections import NoteSection
     from elftools.elf.segments import NoteSegment
-    f = _open(img)
+    f = _open(img, kind)
     sec = f.get_section_by_name('.note')
     seg = next(f.iter_segments())
     stab = f.get_section_by_name('.stab')
@@ -664,13 +717,13 @@ def _impl_notes(img, sched=()):
     return obs, _cfg_of_file(f), tells
 
 
-def _impl_multi(img, k, order):
+def _impl_multi(img, k, order, kind='bytesio'):
     """ONE ELFFile with k adjacent note sections and the segment spanning them: the views are walked in the
     given order (repetitions allowed), then the segment and the first section (same start, different size) in
     lock step.  -> (observations, cursor schedules of the two lock-step walks)"""
     from elftools.elf.sections import NoteSection
     from elftools.elf.segments import NoteSegment
-    f = _open(img)
+    f = _open(img, kind)
     secs = [f.get_section_by_name(n) for n, _ in NOTE_NAMES[:k]]
     seg = next(f.iter_segments())
     assert all(isinstance(x, NoteSection) for x in secs) and isinstance(seg, NoteSegment)
@@ -683,9 +736,9 @@ def _impl_multi(img, k, order):
     return obs, tells
 
 
-def _impl_stabs(img, sched=()):
+def _impl_stabs(img, sched=(), kind='bytesio'):
     from elftools.elf.sections import StabSection
-    f = _open(img)
+    f = _open(img, kind)
     sec = f.get_section_by_name('.stab')
     note = f.get_section_by_name('.note')
     assert isinstance(sec, StabSection)
@@ -738,6 +791,16 @@ def _mangle(rng_seed, how, ext, le):
 
 
 def evaluate(ctx, cases):
+    global _S
+    _S = Streams('pv-c14-')
+    try:
+        _evaluate(ctx, cases)
+    finally:
+        _S.close()
+        _S = None
+
+
+def _evaluate(ctx, cases):
     from elftools.common.utils import roundup
     drv = ctx.driver
     # the model's view of the header is what ELFFile reports; precompute the symbolic cfg for the driver
@@ -818,6 +881,7 @@ def evaluate(ctx, cases):
         img = mk_elf(c[0], c[1], ET[c[2]], EM[c[3]], nbytes, sbytes, pre_pad, eof, pl, ph_b, shn_b, shs_b)
         phoff, sh_note, sh_stab = pl['phoff'], pl['shoff'] + pl['shentsize'], pl['shoff'] + (1 + k) * pl['shentsize']
         sched = _sched(a[2])
+        skind = _kind(a[2])
         # the extracted model re-walks the image list from its head at every read (lists have no random access):
         # a walk of n steps over an image of m bytes costs ~10 n m.  On the few long tables (> 64 KiB, thousands
         # of records) it is run in the thorough tier only, and once per view (under the recorded cursor schedule;
@@ -826,7 +890,8 @@ def evaluate(ctx, cases):
         heavy = kind in ('notes', 'stabs') and len(a[1]) * len(img) > 30_000_000
         run_model = not heavy or ctx.tier == 'thorough'
         if kind in ('notes', 'malformed'):
-            got = impl_call(_impl_notes, img, sched)
+            got = impl_call(_impl_notes, img, sched, skind)
+            _S.drop_files()
             # (the header names ELFFile reports are expected to be the generator's; if an enum edit in /repo makes
             #  them differ, impl is compared with the spec for the generator's configuration and fails there)
             impl, tells = (got[0], got[2]) if isinstance(got, tuple) else (got, [[], []])
@@ -844,7 +909,8 @@ def evaluate(ctx, cases):
             work.append(w)
         elif kind == 'multi':
             order = list(a[3])
-            got = impl_call(_impl_multi, img, k, order)
+            got = impl_call(_impl_multi, img, k, order, skind)
+            _S.drop_files()
             impl, tells = got if isinstance(got, tuple) else (got, [[], []])
             allnotes = [n for sec in a[1] for n in sec]
             views = [(v, []) for v in order] + [('seg', tells[0]), (0, tells[1])]
@@ -860,7 +926,8 @@ def evaluate(ctx, cases):
                     reqs.append(['expected', dcfg(c), pl['note_offs'][v], a[1][v]])
             work.append(dict(img=img, impl=impl, sched=[], wf=bool(wf) and wf_h, n=2 * len(views), nv=len(views)))
         else:
-            got = impl_call(_impl_stabs, img, sched)
+            got = impl_call(_impl_stabs, img, sched, skind)
+            _S.drop_files()
             impl, tells = got if isinstance(got, tuple) else (got, [])
             nm = (0 if heavy else 1) + (1 if run_model else 0)
             work.append(dict(img=img, impl=impl, sched=sched, wf=bool(wf) and wf_h, n=nm + 1, nm=nm, shf=shf, heavy=heavy, run_model=run_model))
@@ -875,6 +942,9 @@ def evaluate(ctx, cases):
         r = ans2[pos:pos + w['n']]
         pos += w['n']
         ctx.bump('kind', kind)
+        if kind != 'roundup':
+            ctx.bump('stream_kind', _kind(a[2]))
+            ctx.bump('stream_kind_' + kind, _kind(a[2]))
         if kind not in ('roundup', 'multi'):
             for op in (w['sched'] or [['none']]):
                 ctx.bump('consumer_op_' + kind, op[0] if op[0] != 'data' else 'data ' + op[1])
